@@ -74,6 +74,7 @@ func vpH_C13_T_rewrite() {
 	vpQuiesce()
 	vpCover("C13.rewrite")
 	vpAssert("C13.still-responsive", s.e.IsLeader())
+	vpAuditLog(s.st, "a", false, 0, false) // in particular: the foreign bytes were never deleted or overwritten by this instance
 	_ = s.e.Stop()
 }
 
@@ -110,4 +111,35 @@ func vpH_C13_T_validate() {
 	if !ok {
 		vpAssert("C13.tamper-demotes", !s.e.IsLeader())
 	}
+}
+
+// vpH_C13_T_leader_tampered_watch: the leader was a follower before (its watch loop is still running) and its
+// record is overwritten with arbitrary bytes: the watch notification about the foreign bytes reaches it before
+// its next heartbeat. It must not crash, hang or stop responding (Status and Stop return), and it is demoted
+// with the callback by the time the next heartbeat has completed.
+func vpH_C13_T_leader_tampered_watch() {
+	H := time.Second
+	vpSetOpt("rand-fixed", 1)
+	s := vpFollowingInstance(H, nil)
+	time.Sleep(450 * time.Millisecond)
+	s.st.write("env:other", "delete", nil, true, 0)
+	time.Sleep(200 * time.Millisecond)
+	vpQuiesce()
+	if !s.e.IsLeader() {
+		vpEndPath("not-elected")
+	}
+	s.st.write("env:outsider", "update", vpRec("r"), false, s.st.lastSeq)
+	time.Sleep(H + H/2)
+	vpQuiesce()
+	vpCover("C13.tampered-watch")
+	dl := vpDeadlocked()
+	vpAssert("C13.responsive", dl == "")
+	if dl != "" {
+		return
+	}
+	vpAssert("C13.tamper-demotes", s.cb.demotes == 1 && !s.e.IsLeader())
+	vpAssert("C13.responsive", s.e.Status().State != "")
+	_ = s.e.Stop()
+	vpQuiesce()
+	vpAssert("C13.responsive", vpThreadsAlive() == 0)
 }
